@@ -192,3 +192,14 @@ def enc_decision(dec):
 
 def enc_decisions(ds):
     return [enc_decision(d) for d in ds]
+
+
+def enc_js(x):
+    """Like enc, but numbers as JavaScript sees them: an integral float and the integer are one value."""
+    if isinstance(x, dict):
+        return {"t": "o", "m": {str(k): enc_js(v) for k, v in x.items()}}
+    if isinstance(x, (list, tuple)):
+        return {"t": "l", "e": [enc_js(v) for v in x]}
+    if isinstance(x, float) and not isinstance(x, bool) and x == x and x not in (float("inf"), float("-inf")) and x.is_integer():
+        return {"t": "i", "v": str(int(x))}
+    return enc(x)
